@@ -147,6 +147,12 @@ def sto(a, b, env):
     while work:
         x, y = work.pop()
         x, y = deref(x, env), deref(y, env)
+        if x[0] in ('a', 'c') or y[0] in ('a', 'c'):
+            # constants are leaves: they cannot take part in a cyclic binding
+            for z in (x, y):
+                if z[0] == 'f':
+                    add(z)
+            continue
         rx, ry = find(add(x)), find(add(y))
         if rx == ry:
             continue
